@@ -279,7 +279,7 @@ def const_val(e):
         return e.get('v')
     if 'cv' in e:
         return e['cv']
-    if e.get('k') == 'cast' and e.get('ck') in ('LValueToRValue', 'NoOp'):
+    if e.get('k') == 'cast' and e.get('ck') in ('LValueToRValue', 'NoOp', 'NullToPointer', 'NullToMemberPointer'):
         return const_val(e['e'])
     return None
 
